@@ -214,6 +214,16 @@ def _mcs(m):
     return out
 
 
+def _scoped_sub(m):
+    q = _sub_query(m)
+    if q is None:
+        return None
+    atoms = list(m)
+    scope = set(atoms[:max(3, 2 * len(atoms) // 3)])
+    return [sorted(x.items()) for _, x in zip(range(20), q.get_mapping(m, searching_scope=scope))]
+
+
+OBSERVERS['scoped_sub'] = _scoped_sub
 OBSERVERS['enumerate_charged_forms'] = _charged_forms
 OBSERVERS['mcs'] = _mcs
 OBSERVERS['split'] = lambda m: [str(x) for x in m.split()]
